@@ -3,6 +3,7 @@ real pyiga.assemble.Multipatch (M1), partition-level comparison."""
 import itertools
 from concurrent.futures import ThreadPoolExecutor
 
+import json
 import numpy as np
 
 from ..common import MachineryError, write_cfg
@@ -15,10 +16,11 @@ def cfgs(ctx):
                 MaxJoins=4, MaxRep=2, DoEmit=True)
     out = []
 
-    def add(name, workers=2, **kw):
+    def add(name, workers=2, sim=None, **kw):
+        """sim = number of random walks (TLC -simulate) instead of the breadth-first exploration of every history"""
         c = dict(base)
         c.update(kw)
-        out.append((name, c, workers))
+        out.append((name, c, workers, sim))
     add('2x1', W1=1, W2=2, MaxJoins=2)
     add('2x1-refl', W1=1, W2=2, ReflSeed=0b0110, MaxJoins=2)
     add('2x2', W1=2, W2=2, MaxJoins=5)
@@ -33,10 +35,16 @@ def cfgs(ctx):
     add('1x2x1-3d-flipA', D=3, W1=1, W2=2, W3=1, ReflSeed=8, MaxJoins=2)
     add('1x2x1-3d-flipB', D=3, W1=1, W2=2, W3=1, ReflSeed=32, MaxJoins=2)
     add('2x1x1-3d-flip', D=3, W1=2, W2=1, W3=1, ReflSeed=16, MaxJoins=1)
+    # an interface BOTH of whose end vertices are interior cross points (3x2 lattice, middle interface), with dofs in the
+    # interior of the interface (degree 2): random orders of the seven joins (one walk in eight makes all seven joins
+    # before it finalizes; breadth-first over the 13700 histories is in the thorough tier)
+    add('3x2-p2', W1=2, W2=3, NN=3, MaxJoins=7, MaxRep=1, workers=1, sim=1000)
     if ctx.thorough:
         add('2x2-rep', W1=2, W2=2, MaxJoins=8, MaxRep=2, workers=4)
         add('3x2', W1=2, W2=3, MaxJoins=7, MaxRep=1, workers=6)
         add('3x2-refl', W1=2, W2=3, ReflSeed=0b011011000110, MaxJoins=7, MaxRep=1, workers=6)
+        add('3x2-p2-all', W1=2, W2=3, NN=3, MaxJoins=7, MaxRep=1, workers=8)
+        add('3x2-p2-refl', W1=2, W2=3, NN=3, ReflSeed=0b011011000110, MaxJoins=7, MaxRep=1, workers=1, sim=2000)
         add('ring5', Kind='ring', K=5, MaxJoins=5, MaxRep=1, workers=4)
         add('ring6', Kind='ring', K=6, MaxJoins=6, MaxRep=1, workers=6)
         add('ring4-p2', Kind='ring', K=4, NN=3, MaxJoins=5, MaxRep=2, workers=4)
@@ -297,8 +305,14 @@ def run(ctx):
     todo = cfgs(ctx)
 
     def one(item):
-        name, consts, workers = item
-        cfg = write_cfg(ctx.scratch / ('mp_%s.cfg' % name), consts, invariants=INVS, view='View')
+        name, consts, workers, sim = item
+        # random walks over the large complexes only GENERATE behaviours (the closure invariants, evaluated in every state,
+        # cost 0.3 s per state there; they are checked exhaustively on the smaller complexes): the expected partition
+        # of each walk is still the spec's ClassLabel, computed once at Finalize
+        cfg = write_cfg(ctx.scratch / ('mp_%s.cfg' % name), consts, invariants=INVS if not sim else ['EmitComplex'], view='View')
+        if sim:
+            return name, ctx.tlc('Multipatch', cfg, workers=1, simulate=sim, depth=consts['MaxJoins'] + 2,
+                                 seed=int(ctx.seed) + 14, timeout=3000)
         return name, ctx.tlc('Multipatch', cfg, workers=workers, timeout=3000)
 
     with ThreadPoolExecutor(4 if ctx.thorough else 4) as ex:
@@ -313,6 +327,14 @@ def run(ctx):
     for name, res in results:
         cxs = res.recs('COMPLEX')
         fins = res.recs('FIN')
+        # random walks re-emit the complex at every start and may repeat a history
+        cxs = [json.loads(t) for t in sorted({json.dumps(c0, sort_keys=True) for c0 in cxs})]
+        seen_h, uniq = set(), []
+        for f0 in fins:
+            if tuple(f0['hist']) not in seen_h:
+                seen_h.add(tuple(f0['hist']))
+                uniq.append(f0)
+        fins = uniq
         if len(cxs) != 1 or not fins:
             raise MachineryError('no behaviours generated for %s' % name)
         cx = cxs[0]
@@ -332,3 +354,4 @@ def run(ctx):
             full = [f for f in fins if f['numdofs'] == int(np.prod([w * (cx['NN'] - 1) + 1 for w in cx['W']]))]
             check_system(ctx, name, cx, patches, full)
     ctx.exhaustive = True
+    ctx.notes['random_walk_configurations'] = [t[0] for t in todo if t[3]]
